@@ -13,6 +13,9 @@ def excluded():
     return json.load(open(vlib.VERIF + '/table_exclusions.json'))['segments']
 
 
+NEWLY_BAD = {}
+
+
 def seg_cases(tier, rng):
     import hl7apy
     ex = excluded()
@@ -21,7 +24,7 @@ def seg_cases(tier, rng):
         lib = hl7apy.load_library(v)
         names = sorted(n for n in lib.SEGMENTS if n != 'MSH')
         k = 150 if tier == 'quick' else len(names)
-        pick = set(rng.sample(names, min(k, len(names)))) | (set(ex.get(v, [])) & set(names))
+        pick = set(rng.sample(names, min(k, len(names)))) | ((set(ex.get(v, [])) | set(NEWLY_BAD.get(v, []))) & set(names))
         shapes = 2 if tier == 'quick' else 6
         # default delimiters, plus one random valid set per version
         chars_alt = ''.join(rng.sample(gen.PUNCT, 5))
@@ -30,6 +33,9 @@ def seg_cases(tier, rng):
             for n in sorted(pick):
                 for _ in range(shapes if chars == DEF else 1):
                     out.append((v, g.segment(n, mode='canon'), False, chars, n))
+            for _ in range(6 if tier == 'quick' else 30):
+                z = g.zsegment()
+                out.append((v, z, False, chars, z[:3]))
     return out
 
 
@@ -39,6 +45,7 @@ def run(tier, seed):
     rng = chk.rng
     chk.proof(MODULES, THEOREMS)
     ex = excluded()
+    NEWLY_BAD.update(vlib.newly_bad_segments())
     # ---- segments
     segs = seg_cases(tier, rng)
     a = vlib.pmap(impl.seg, [c[:4] for c in segs])
